@@ -523,7 +523,7 @@ pub fn check_proc(job: &Job, faults: &[ProcFault], rec: &ProcRecord, baseline: O
     let fired_read = rec.any_fired(is_read_kind);
     let masked = !faults.is_empty() && faults.iter().all(|f| MASKED_KINDS.contains(&f.kind.as_str()));
     if let Some(sig) = rec.signal {
-        let why = crate::minimize::abort_signature(&rec.stderr).unwrap_or_else(|| format!("signal{}", sig));
+        let why = crate::minimize::abort_signature(&rec.stderr).map(|w| if w.starts_with("oom") && crate::minimize::job_has_magnitude(job) { w.replacen("oom", "oom-magnitude", 1) } else { w }).unwrap_or_else(|| format!("signal{}", sig));
         v.push(Violation::new(&format!("I1-abort:{}", why), format!("process killed by signal {} | {}", sig, ctx)));
         return v;
     }
